@@ -14,6 +14,14 @@ PROFILE = {"array_p": 0.4, "fail": 0.0, "cancel": True, "cancel_p": 0.2, "deps":
            "mid_shutdown_p": 0.12, "gate_p": 0.4, "block_res_p": 0.03, "no_final_shutdown_p": 0.15, "timeout": 15}
 
 CORPUS = [
+    # a call with two inputs, the SECOND one cancelled while the first is still parked behind a running call: the dependent
+    # fails with CancelledError once both are settled, nothing blocks
+    {"executor": {"backend": "local", "block_allocation": True, "max_workers": 2, "disable_dependencies": False},
+     "calls": [{"base": 1, "gate": 0, "args": [], "kwargs": {}}, {"base": 10, "args": [{"f": 0}], "kwargs": {}},
+               {"base": 20, "args": [{"f": 0}], "kwargs": {}}, {"base": 100, "args": [{"f": 1}, {"f": 2}], "kwargs": {}}],
+     "script": [{"c": "submit"}, {"c": "submit"}, {"c": "submit"}, {"c": "submit"}, {"c": "wait_enter", "i": 0}, {"c": "cancel", "i": 2},
+                {"c": "sleep", "ms": 100}, {"c": "release", "g": 0}, {"c": "shutdown", "wait": True, "cancel": False}],
+     "gates": [0], "perturb": {}, "seed": 9, "timeout": 15, "settle": 6},
     # D1 witness (fixed): a queued call is cancelled, then shutdown(wait=True)
     {"executor": {"backend": "local", "block_allocation": True, "max_workers": 1, "disable_dependencies": True},
      "calls": [{"base": 1, "gate": 0, "args": [], "kwargs": {}}, {"base": 2, "args": [], "kwargs": {}}],
@@ -42,6 +50,8 @@ CORPUS.append(
      "script": [{"c": "submit"}, {"c": "submit"}, {"c": "submit"}, {"c": "submit"}, {"c": "submit"}, {"c": "sleep", "ms": 40},
                 {"c": "release", "g": 1}, {"c": "await", "i": 3}, {"c": "release", "g": 0}, {"c": "shutdown", "wait": True, "cancel": False}],
      "gates": [0, 1], "perturb": {}, "seed": 4, "timeout": 15, "settle": 6})
+
+CORPUS = CORPUS + sysprop.starvation_probes()
 
 REQUIRED = ["sdDrainGet", "sdDrainCancel", "sdPutStop", "sdJoinThread", "sdJoinQueue", "sdFinish", "rBeginSd", "rScanFwd",
             "wProcStop", "wJoinExit", "dJoinThread", "dJoinExit", "mCancel", "mAwait", "rDecidePark"]
